@@ -6,6 +6,7 @@ cd /verif
 fail=0
 for d in seeded/*/; do
   s=$(basename $d); p=${s:0:3}
+  grep -q '"moot": true' $d/meta.json 2>/dev/null && { echo "seeded  $s: moot (see meta.json), skipped"; continue; }
   tools/seedtest.sh $d/patch.diff $p --tier $tier > /tmp/run_seeds.$s.log 2>&1; rc=$?
   n=$(grep -a -c '^VIOLATION' /tmp/run_seeds.$s.log)
   [ $rc -eq 1 ] && [ $n -gt 0 ] && echo "seeded  $s: caught ($n violation lines)" || { echo "seeded  $s: NOT CAUGHT (rc=$rc)"; fail=1; }
